@@ -93,7 +93,7 @@ def verify(name, suite=False, tier="quick", checks=None):
         meta.setdefault("check_results", {}).update(res)
         meta["caught"] = any(v["rc"] == 1 for v in meta["check_results"].values())
         meta["ran"] = [f"demo on HEAD (rc {rc0}), demo with patch (rc {rc1})"] + \
-                      ([f"repo suite with patch: {meta.get('suite_with_patch')}"] if suite else []) + \
+                      ([f"repo suite with patch: {meta.get('suite_with_patch')}"] if meta.get("suite_with_patch") else []) + \
                       [f"./check {c} --tier {tier} with VERIF_REPO=<patched worktree> -> rc {v['rc']}" for c, v in res.items()]
         json.dump(meta, open(os.path.join(d, "meta.json"), "w"), indent=1)
         print(f"{name}: demo {rc0}->{rc1} suite={meta.get('suite_with_patch_rc')} "
